@@ -100,6 +100,17 @@ func factsBroker(repo string, o *out) {
 	fc := parse(repo, "service/client.go")
 	o.def("minKeepAlive", "Nat", strconv.FormatInt(constInt(fc, "minKeepAlive"), 10))
 
+}
+
+// ---- section broker-keepalive: the read deadline (property C19) ----------------------------------
+//
+// A section of its own: a rewrite of receiver() / timeoutReader the extractor does not recognise is
+// an obligation of the properties that cite these three names (C19, and C16 through the receiver
+// model), not of every property built on the broker model.
+
+func init() { extraSections = append(extraSections, section{"broker-keepalive", factsBrokerKeepalive}) }
+
+func factsBrokerKeepalive(repo string, o *out) {
 	// receiver(): keepAlive := time.Second * time.Duration(svc.keepAlive)
 	//             r := timeoutReader{d: keepAlive + (keepAlive / N), ...}
 	fr := parse(repo, "service/sendrecv.go")
